@@ -7,6 +7,11 @@ from harness.common import Failure, Spec, coq_list, coq_option
 
 # case = {"kind": ["list", f1, f2, ce] | ["gather", ce] | ["race"],
 #         "inputs": [[canc, pre]]   canc = ["nothing"] | ["succeed", z] | ["fail", n];  pre = None | outcome
+#         canc also ["raise"]: the canceller raises a BaseException that is not an Exception (DeferredList / gatherResults
+#                            only; outside the Coq model: the input stays unfired, the cancel loop must go on)
+#         "selfremove": bool  every input removes itself from the CALLER's list (the object passed to the aggregate) when it
+#                            fires, through a callback attached before the aggregate is built (armed once it is built)
+#         ops also ["mut", "clear" | "reverse" | "append" | "pop0"]: the caller mutates that list object
 #         "chained": [bool]  input i was ALREADY FIRED (.called) when handed to the aggregate but its chain is suspended on
 #                            a pending inner Deferred (succeed(x).addCallback(lambda _: inner)): it has delivered nothing;
 #                            ["fire", i, o] fires the inner one; cancel() reaches the inner one's canceller (canc)
@@ -15,6 +20,10 @@ from harness.common import Failure, Spec, coq_list, coq_option
 
 class UserErr(Exception):
     pass
+
+
+class BaseErr(BaseException):
+    """an exception that is not an Exception (like asyncio.CancelledError, GeneratorExit, KeyboardInterrupt)"""
 
 
 def _canon_failure(f):
@@ -37,9 +46,24 @@ def _canon(r):
     return "?" + type(r).__name__
 
 
+_QUIET = []
+
+
+def _quiet_log():
+    """DeferredList.cancel() logs the exception of a canceller that raises; keep that off stderr"""
+    if not _QUIET:
+        _QUIET.append(1)
+        try:
+            from twisted.logger import globalLogBeginner
+            globalLogBeginner.beginLoggingTo([lambda e: None], redirectStandardIO=False, discardBuffer=True)
+        except Exception:       # noqa: BLE001 - logging already started: leave it
+            pass
+
+
 def impl(case) -> str:
     from twisted.internet import defer
     from twisted.python.failure import Failure as F
+    _quiet_log()
 
     log = []
     n = len(case["inputs"])
@@ -52,6 +76,8 @@ def impl(case) -> str:
                 d.callback(beh[1])
             elif beh[0] == "fail":
                 d.errback(UserErr(beh[1]))
+            elif beh[0] == "raise":
+                raise BaseErr()
         return canceller
 
     def fire(d, o):
@@ -72,12 +98,22 @@ def impl(case) -> str:
         if pre is not None:
             fire(d, pre)
 
+    arg = list(ds)              # the caller's own list object, handed to the aggregate and mutated later
+    armed = [False]
+    if case.get("selfremove"):
+        for d in ds:
+            def rm(r, d=d):
+                if armed[0] and d in arg:
+                    arg.remove(d)
+                return r
+            d.addBoth(rm)
     if kind[0] == "list":
-        agg = defer.DeferredList(ds, fireOnOneCallback=kind[1], fireOnOneErrback=kind[2], consumeErrors=kind[3])
+        agg = defer.DeferredList(arg, fireOnOneCallback=kind[1], fireOnOneErrback=kind[2], consumeErrors=kind[3])
     elif kind[0] == "gather":
-        agg = defer.gatherResults(ds, consumeErrors=kind[1])
+        agg = defer.gatherResults(arg, consumeErrors=kind[1])
     else:
-        agg = defer.race(ds)
+        agg = defer.race(arg)
+    armed[0] = True
 
     def entry(x):
         if x is None:
@@ -116,8 +152,20 @@ def impl(case) -> str:
             i = op[1]
             if i < n and not targets[i].called:
                 fire(targets[i], op[2])
+        elif op[0] == "mut":
+            if op[1] == "clear":
+                arg.clear()
+            elif op[1] == "reverse":
+                arg.reverse()
+            elif op[1] == "append":
+                arg.append(defer.Deferred())
+            elif arg:
+                arg.pop(0)
         else:
-            agg.cancel()
+            try:
+                agg.cancel()
+            except BaseErr:
+                log.append("ESC")          # a canceller's exception escaped from aggregate.cancel()
     return " ".join(log) + " | " + " ".join(seen)
 
 
@@ -188,6 +236,8 @@ def expected(case):
         if raw[j] is None:
             ev.append(f"X{j}")
             b = behs[j]
+            if b[0] == "raise":
+                return          # the canceller blew up: the input stays unfired; the aggregate's cancel loop goes on
             fire(j, ("ok", b[1]) if b[0] == "succeed" else ("err", f"E{b[1]}") if b[0] == "fail" else ("err", "X"))
 
     for i, (_, pre) in enumerate(case["inputs"]):
@@ -204,6 +254,8 @@ def expected(case):
         if op[0] == "fire":
             if op[1] < n and raw[op[1]] is None:
                 fire(op[1], _raw(op[2]))
+        elif op[0] == "mut":
+            pass                # the aggregate does not depend on later mutation of the argument
         elif st["agg"] is None:
             for j in range(n):
                 cancel(j)
@@ -229,6 +281,9 @@ def oracle(case, obs):
     evs = head.split(" ") if head else []
     seen = tail.split(" ") if tail else []
     kind = case["kind"][0]
+    if "ESC" in evs:
+        return Failure(case, "an exception raised by an input's canceller escaped from aggregate.cancel(): " + obs,
+                       f"{kind}-cancel-escaped")
     na = sum(1 for e in evs if e.startswith("A:"))
     if na > 1 or "TWICE" in evs or "AC" in seen:
         return Failure(case, f"the aggregate fired {na} times / AlreadyCalledError: {obs}", f"{kind}-fires-twice")
@@ -259,6 +314,21 @@ def _rand_canc(rng):
     return ["nothing"] if r < 0.6 else ["succeed", rng.randrange(50, 60)] if r < 0.8 else ["fail", rng.randrange(7, 9)]
 
 
+def _decorate(rng, case):
+    """caller-side behaviour: mutation of the list object passed to the aggregate; cancellers that blow up"""
+    n = len(case["inputs"])
+    if rng.random() < 0.35:
+        case["selfremove"] = True
+    if rng.random() < 0.3:
+        for _ in range(rng.choice([1, 1, 2])):
+            case["ops"].insert(rng.randrange(len(case["ops"]) + 1), ["mut", rng.choice(["clear", "reverse", "append", "pop0"])])
+    if case["kind"][0] != "race" and rng.random() < 0.15:
+        i = rng.randrange(n)
+        if case["inputs"][i][1] is None:
+            case["inputs"][i] = [["raise"], None]
+    return case
+
+
 def _rand_out(rng, i):
     return ["ok", 10 + i] if rng.random() < 0.6 else ["err", i]
 
@@ -281,8 +351,8 @@ def gen(rng, tier):
                         cut = rng.randrange(len(ops) + 2)
                         if cut <= len(ops) and rng.random() < 0.5:
                             ops = ops[:cut] + [["cancel"]] + ops[cut:]
-                        cases.append({"kind": kind, "inputs": inputs, "ops": ops,
-                                      "chained": [rng.random() < 0.3 for _ in range(n)]})
+                        cases.append(_decorate(rng, {"kind": kind, "inputs": inputs, "ops": ops,
+                                                     "chained": [rng.random() < 0.3 for _ in range(n)]}))
     for _ in range(400 if tier == "quick" else 3000):
         kind = rng.choice(KINDS)
         n = rng.choice([1, 2, 3, 5, 8, 13, 25, 40])
@@ -294,12 +364,25 @@ def gen(rng, tier):
             else:
                 i = rng.randrange(n)
                 ops.append(["fire", i, _rand_out(rng, i)])
-        cases.append({"kind": kind, "inputs": inputs, "ops": ops, "chained": [rng.random() < 0.3 for _ in range(n)]})
+        cases.append(_decorate(rng, {"kind": kind, "inputs": inputs, "ops": ops,
+                                     "chained": [rng.random() < 0.3 for _ in range(n)]}))
     return cases
 
 
 def corpus():
     return [
+        # the caller's list object is mutated after the call: every input removes itself from it when it fires
+        {"kind": ["race"], "inputs": [[["nothing"], None], [["nothing"], None], [["nothing"], None]], "selfremove": True,
+         "ops": [["fire", 0, ["err", 0]], ["fire", 1, ["ok", 11]]]},
+        {"kind": ["race"], "inputs": [[["nothing"], None], [["nothing"], None]], "selfremove": True,
+         "ops": [["mut", "reverse"], ["fire", 1, ["ok", 11]]]},
+        {"kind": ["list", False, False, False], "inputs": [[["nothing"], None], [["nothing"], None]],
+         "ops": [["mut", "clear"], ["fire", 1, ["ok", 11]], ["mut", "append"], ["cancel"]]},
+        # a canceller that raises a BaseException-only exception: the cancel loop must reach the later inputs
+        {"kind": ["list", False, False, False], "inputs": [[["raise"], None], [["nothing"], None], [["fail", 7], None]],
+         "ops": [["cancel"], ["fire", 0, ["ok", 10]]]},
+        {"kind": ["gather", True], "inputs": [[["nothing"], None], [["raise"], None], [["succeed", 5], None]],
+         "chained": [False, False, True], "ops": [["cancel"]]},
         # inputs that have already fired (.called) but are waiting on a chained inner Deferred when the aggregate is cancelled
         {"kind": ["list", False, False, False], "inputs": [[["nothing"], None], [["nothing"], ["ok", 11]], [["fail", 7], None]],
          "chained": [True, False, True], "ops": [["cancel"]]},
@@ -328,6 +411,8 @@ def _out_coq(o):
 
 
 def to_coq(case):
+    if any(c[0] == "raise" for c, _ in case["inputs"]):
+        return None             # cancellers that raise are outside the Coq model (the oracle still judges the case)
     k = case["kind"]
     b = lambda x: "true" if x else "false"
     kind = f"(KList {b(k[1])} {b(k[2])} {b(k[3])})" if k[0] == "list" else f"(KGather {b(k[1])})" if k[0] == "gather" else "KRace"
@@ -337,7 +422,8 @@ def to_coq(case):
     inputs = coq_list([f"({canc(c)}, {coq_option(None if p is None else _out_coq(p), 'outcome')}, "
                        f"{'true' if ch[i] and p is None else 'false'})" for i, (c, p) in enumerate(case["inputs"])],
                       "input")
-    ops = coq_list(["CancelAgg" if o[0] == "cancel" else f"Fire {o[1]} {_out_coq(o[2])}" for o in case["ops"]], "op")
+    ops = coq_list(["CancelAgg" if o[0] == "cancel" else "MutateArg" if o[0] == "mut" else f"Fire {o[1]} {_out_coq(o[2])}"
+                    for o in case["ops"]], "op")
     return f"({kind}, {inputs}, {ops})"
 
 
@@ -349,9 +435,11 @@ def shrink(case):
     if n > 1:
         # drop the last input (and the ops that mention it)
         yield {**case, "inputs": case["inputs"][:-1], "chained": (case.get("chained") or [False] * n)[:-1],
-               "ops": [o for o in ops if o[0] == "cancel" or o[1] < n - 1]}
+               "ops": [o for o in ops if o[0] in ("cancel", "mut") or o[1] < n - 1]}
     if any(case.get("chained") or []):
         yield {**case, "chained": [False] * n}
+    if case.get("selfremove"):
+        yield {**case, "selfremove": False}
     for i, (c, p) in enumerate(case["inputs"]):
         if c[0] != "nothing":
             ins = list(case["inputs"])
@@ -371,7 +459,9 @@ SPEC = Spec(
          "permutation x success/failure assignment x number of pre-fired inputs (a prefix of the permutation) for 1..3 "
          "inputs (quick; 3 sampled 35%) / 1..4 (thorough; 4 sampled 50%), random canceller behaviour per input "
          "(does nothing / fires with a value / fires with a failure), 30% of the unfired inputs already .called but waiting on "
-         "a chained inner Deferred, the aggregate cancelled at a random point in half "
+         "a chained inner Deferred, in 35% every input removes itself from the caller's list object when it fires and in 30% the "
+         "caller mutates that list (clear / reverse / append / pop), 15% of the DeferredList/gatherResults cases have a "
+         "canceller raising a BaseException-only exception (not modelled, judged by the oracle), the aggregate cancelled at a random point in half "
          "of them; plus random cases with up to 40 inputs; non-trivial = the aggregate fired; distinct by (case, observation)",
     trusted=["hand-written model coq/C04/Model.v (tied by this correspondence run only)",
              "callbacks added by the harness to the aggregate and (after construction) to the inputs only record"],
